@@ -577,6 +577,8 @@ def _build_alignment(sc, rng, chrom, a, zone_side):
         alleles[j - 1] = a["al"][k]
     hap = W.Haplotype(ref, vs, alleles)
     rs = vs[a["lo"] - 1].pos - rng.randint(12, 20)
+    if vs[a["lo"] - 1].kind == "snv" and rng.random() < 0.12:
+        rs = vs[a["lo"] - 1].pos            # the alignment STARTS exactly on its first variant (amplicon-like reads)
     re_ = vs[a["hi"] - 1].pos + len(vs[a["hi"] - 1].ref) + rng.randint(12, 20)
     hs, he = hap.ref_to_hap(rs), hap.ref_to_hap(re_)
     pos, cig, seq = hap.read(hs, he)
